@@ -30,6 +30,7 @@ func checkC14(c *chk.Ctx) {
 		"R14b every mutation kind (put, delete, delete with entry, range delete) removes the previous owner's shadow; the wrapper callback chains session then index handling for all four kinds; the apply functions invoke the callback before mutating the record",
 		"R14c session cleanup is one write request carrying the owned keys, the session key and the shadow range (open finding F17: the owned keys are listed outside the batch and deleted unconditionally)",
 		"R14d session timers follow leadership: initialised before LEADER from a DB that already holds the replayed log tail, closed on NewTerm/close; the heartbeat re-arms the timer with the session's own timeout",
+		"R14f a session only leaves the session manager's table together with a call that stops it (cancels its context, which ends its expiry goroutine): no removal, clearing or replacement of the table leaves a timer of an old term running",
 		"R14e a range delete runs the ownership callback for every key it removes (shared with C12)",
 	}
 	c.NotDec = []string{
@@ -41,6 +42,7 @@ func checkC14(c *chk.Ctx) {
 	ruleR14c(h)
 	ruleR14d(h)
 	ruleR12fInto(h, "R14e")
+	ruleR14f(h)
 }
 
 func isResultOf(h *H, v ssa.Value, spec ir.Callee) *ssa.Call {
@@ -556,4 +558,285 @@ func callbackSingletons(h *H) (sessT string, sessG *ssa.Global, idxT string, idx
 		}
 	}
 	return
+}
+
+// ruleR14f: the expiry goroutine of a session lives until the session's own context is
+// cancelled. The manager's table is the only handle on it, so whoever takes a session out
+// of the table (close request, expiry, manager close on fencing) has to stop it on the
+// same path; a session that is dropped from the table while its timer runs expires later,
+// under a later term, and deletes the records of a client that is still heart-beating.
+func ruleR14f(h *H) {
+	const rule = "R14f"
+	h.Rule(rule, "K1", "every removal from the session manager's table of running sessions (Remove of one session, Clear, replacement of the table) is paired on every path with a call that cancels the context of the removed session(s)", 3)
+	mt := h.implType(rule, "server", "SessionManager")
+	if mt == nil {
+		return
+	}
+	mst, _ := mt.Underlying().(*types.Struct)
+	// the table: the field of the manager whose type is the repository's Map with a pointer-to-struct value
+	var tableField string
+	var sessT *types.Named
+	for i := 0; mst != nil && i < mst.NumFields(); i++ {
+		n, ok := types.Unalias(mst.Field(i).Type()).(*types.Named)
+		if !ok || n.Obj().Pkg() == nil || ir.RelPkg(n.Obj().Pkg().Path()) != "common/collection" || n.TypeArgs() == nil || n.TypeArgs().Len() != 2 {
+			continue
+		}
+		if pt, isP := n.TypeArgs().At(1).(*types.Pointer); isP {
+			if sn, isN := types.Unalias(pt.Elem()).(*types.Named); isN {
+				tableField, sessT = mst.Field(i).Name(), sn
+			}
+		}
+	}
+	if sessT == nil {
+		h.Anchor(rule, "table of running sessions (a collection.Map field of the SessionManager implementation)")
+		return
+	}
+	isCancelType := func(t types.Type) bool {
+		n, ok := types.Unalias(t).(*types.Named)
+		return ok && n.Obj().Pkg() != nil && n.Obj().Pkg().Path() == "context" && n.Obj().Name() == "CancelFunc"
+	}
+	// stop functions: methods of the session type that call the session's cancel function, directly or through another such method
+	stops := map[*ssa.Function]bool{}
+	for round := 0; round < 3; round++ {
+		for _, fn := range h.P.Funcs {
+			if stops[fn] || fn.Signature.Recv() == nil || !ir.TypeIs(fn.Signature.Recv().Type(), "server", sessT.Obj().Name()) {
+				continue
+			}
+			ir.Instrs(fn, func(in ssa.Instruction) {
+				ci, ok := in.(ssa.CallInstruction)
+				if !ok {
+					return
+				}
+				if _, isGo := in.(*ssa.Go); isGo {
+					return
+				}
+				if callee := ci.Common().StaticCallee(); callee != nil && stops[callee] {
+					stops[fn] = true
+				}
+				if r, isF := ir.FieldLoadOf(ir.Canon(ci.Common().Value)); isF && r.Struct != nil && r.Struct.Obj() == sessT.Obj() && isCancelType(ci.Common().Value.Type()) {
+					stops[fn] = true
+				}
+			})
+		}
+	}
+	if len(stops) == 0 {
+		h.Anchor(rule, "a method of "+sessT.Obj().Name()+" that cancels the session's context")
+		return
+	}
+	isStop := func(in ssa.Instruction) (ssa.Value, bool) {
+		ci, ok := in.(ssa.CallInstruction)
+		if !ok {
+			return nil, false
+		}
+		if _, isGo := in.(*ssa.Go); isGo {
+			return nil, false
+		}
+		if callee := ci.Common().StaticCallee(); callee != nil && stops[callee] && len(ci.Common().Args) > 0 {
+			return ci.Common().Args[0], true
+		}
+		return nil, false
+	}
+	onTable := func(v ssa.Value) bool {
+		r, ok := ir.FieldLoadOf(ir.Canon(v))
+		return ok && r.Struct != nil && r.Struct.Obj() == mt.Obj() && r.Field == tableField
+	}
+	n := 0
+	for _, fn := range h.P.Funcs {
+		if ir.RelPkg(ir.PkgPathOf(fn)) != "server" || fn.Blocks == nil {
+			continue
+		}
+		fn := fn
+		ir.Instrs(fn, func(in ssa.Instruction) {
+			// replacement of the table outside the constructor
+			if st, ok := in.(*ssa.Store); ok {
+				if r, isF := ir.FieldAddrOf(st.Addr); isF && r.Struct != nil && r.Struct.Obj() == mt.Obj() && r.Field == tableField {
+					if _, fresh := ir.Canon(r.Base).(*ssa.Alloc); fresh {
+						return // construction of a new manager
+					}
+					n++
+					h.Bad(rule, fmt.Sprintf("session table replaced in %s", ir.FuncName(fn)), h.pos(in), "the table of running sessions is replaced: the sessions of the old table keep running without any handle to stop them")
+				}
+				return
+			}
+			ci, ok := in.(ssa.CallInstruction)
+			if !ok || !ci.Common().IsInvoke() || !onTable(ci.Common().Value) {
+				return
+			}
+			switch ci.Common().Method.Name() {
+			case "Put", "Get", "Keys", "Empty", "Size", "Values", "String":
+				return
+			case "Remove":
+				n++
+				h.Fn(ir.FuncName(fn))
+				name := fmt.Sprintf("session removed from the table #%d in %s", n, ir.FuncName(fn))
+				// the removed session: Remove(<x>.id) — the stop has to be called on that x
+				var owner ssa.Value
+				arg := ir.Canon(ci.Common().Args[0])
+				if r, isF := ir.FieldLoadOf(arg); isF && r.Struct != nil && r.Struct.Obj() == sessT.Obj() {
+					owner = ir.Canon(r.Base)
+				}
+				var paired func(fn *ssa.Function, at ssa.Instruction, owner ssa.Value, idArg ssa.Value, depth int) bool
+				paired = func(fn *ssa.Function, at ssa.Instruction, owner ssa.Value, idArg ssa.Value, depth int) bool {
+					stopsHere := func(x ssa.Instruction) bool {
+						recv, ok := isStop(x)
+						return ok && (owner == nil || ir.Canon(recv) == owner)
+					}
+					found := false
+					ir.Instrs(fn, func(x ssa.Instruction) {
+						if stopsHere(x) && ir.Dominates(x, at) {
+							found = true
+						}
+					})
+					if found {
+						return true
+					}
+					// afterwards, on every path on which the removal happened (a helper that
+					// reports an error did not remove anything)
+					blocked := map[ir.Edge]bool{}
+					if call, isCall := at.(ssa.CallInstruction); isCall && at != in {
+						if ev := ir.ErrResult(call); ev != nil {
+							for _, t := range ir.NilTests(ev) {
+								blocked[ir.Edge{From: t.If.Block(), To: t.NonNil}] = true
+							}
+						}
+					}
+					after := true
+					ir.Instrs(fn, func(x ssa.Instruction) {
+						if _, isRet := x.(*ssa.Return); isRet {
+							if r, _ := ir.Reach(ir.Search{From: at, Barrier: stopsHere, Blocked: blocked}, ir.Is(x)); r {
+								after = false
+							}
+						}
+					})
+					if after {
+						return true
+					}
+					// the pairing may be the caller's job (extracted helper)
+					sites := ir.StaticCallSites(fn)
+					if depth >= 2 || len(sites) == 0 {
+						return false
+					}
+					for _, site := range sites {
+						var owner2, id2 ssa.Value
+						// the id (or the session) came in as a parameter
+						for pi, pr := range fn.Params {
+							if pi >= len(site.Common().Args) {
+								continue
+							}
+							a := ir.Canon(site.Common().Args[pi])
+							if idArg != nil && ir.Canon(idArg) == ssa.Value(pr) {
+								id2 = a
+								if r, isF := ir.FieldLoadOf(a); isF && r.Struct != nil && r.Struct.Obj() == sessT.Obj() {
+									owner2 = ir.Canon(r.Base)
+								}
+							}
+							if owner != nil && owner == ssa.Value(pr) {
+								owner2 = a
+							}
+						}
+						// or the removed session is handed back to the caller
+						if owner2 == nil && owner != nil {
+							ir.Instrs(fn, func(x ssa.Instruction) {
+								ret, isRet := x.(*ssa.Return)
+								if !isRet {
+									return
+								}
+								rvs := ir.ReturnValues(ret)
+								for k, rv := range rvs {
+									if ir.Canon(rv) != owner {
+										continue
+									}
+									if sv, isV := site.(ssa.Value); isV {
+										if len(rvs) == 1 {
+											owner2 = sv
+										} else if sv.Referrers() != nil {
+											for _, u := range *sv.Referrers() {
+												if ex, isEx := u.(*ssa.Extract); isEx && ex.Index == k {
+													owner2 = ex
+												}
+											}
+										}
+									}
+								}
+							})
+						}
+						if owner != nil && owner2 == nil {
+							return false
+						}
+						if !paired(site.Parent(), site, owner2, id2, depth+1) {
+							return false
+						}
+					}
+					return true
+				}
+				before, after := paired(fn, in, owner, arg, 0), false
+				h.Verdict(before || after, rule, name, h.pos(in), "the removed session is stopped on every path through the removal", "a session is taken out of the manager's table and not stopped on every path: its expiry timer keeps running with no handle left to stop it, fires under a later term and deletes the session and its ephemeral records although the client is heart-beating")
+			case "Clear":
+				n++
+				h.Fn(ir.FuncName(fn))
+				// all sessions are dropped: a loop that stops them has to come first
+				ok := false
+				ir.Instrs(fn, func(x ssa.Instruction) {
+					if _, is := isStop(x); is {
+						if hd := ir.EnclosingLoopHeader(x.Block()); hd != nil && hd.Dominates(in.Block()) && !ir.LoopBlocks(hd)[in.Block()] {
+							ok = true
+						}
+					}
+				})
+				// or: the sessions' contexts are children of the manager's context and that one is cancelled first
+				if !ok && sessionsInheritManagerContext(h, mt, sessT) {
+					ir.Instrs(fn, func(x ssa.Instruction) {
+						if c, isCall := x.(*ssa.Call); isCall && isCancelType(c.Call.Value.Type()) && ir.Dominates(x, in) {
+							if r, isF := ir.FieldLoadOf(ir.Canon(c.Call.Value)); isF && r.Struct != nil && r.Struct.Obj() == mt.Obj() {
+								ok = true
+							}
+						}
+					})
+				}
+				h.Verdict(ok, rule, fmt.Sprintf("session table cleared #%d in %s", n, ir.FuncName(fn)), h.pos(in), "a loop that stops the sessions precedes the clearing", "the table of running sessions is cleared without stopping them: their expiry timers keep running with no handle left to stop them, fire under a later term and delete sessions whose clients are heart-beating")
+			default:
+				n++
+				h.Unknown(rule, fmt.Sprintf("session table operation %s in %s", ci.Common().Method.Name(), ir.FuncName(fn)), h.pos(in), "operation of the table that this rule does not classify")
+			}
+		})
+	}
+}
+
+// sessionsInheritManagerContext: every store to a context.Context field of the session
+// type writes the result of a context constructor whose parent is a context.Context field
+// of the manager.
+func sessionsInheritManagerContext(h *H, mt, sessT *types.Named) bool {
+	isCtx := func(t types.Type) bool {
+		n, ok := types.Unalias(t).(*types.Named)
+		return ok && n.Obj().Pkg() != nil && n.Obj().Pkg().Path() == "context" && n.Obj().Name() == "Context"
+	}
+	stores, good := 0, 0
+	for _, fn := range h.P.Funcs {
+		if ir.RelPkg(ir.PkgPathOf(fn)) != "server" {
+			continue
+		}
+		ir.Instrs(fn, func(in ssa.Instruction) {
+			st, ok := in.(*ssa.Store)
+			if !ok || !isCtx(st.Val.Type()) {
+				return
+			}
+			r, isF := ir.FieldAddrOf(st.Addr)
+			if !isF || r.Struct == nil || r.Struct.Obj() != sessT.Obj() {
+				return
+			}
+			stores++
+			ex, isEx := ir.Canon(st.Val).(*ssa.Extract)
+			if !isEx {
+				return
+			}
+			call, isCall := ex.Tuple.(*ssa.Call)
+			if !isCall || call.Call.StaticCallee() == nil || ir.PkgPathOf(call.Call.StaticCallee()) != "context" || len(call.Call.Args) == 0 {
+				return
+			}
+			if pr, isPF := ir.FieldLoadOf(ir.Canon(call.Call.Args[0])); isPF && pr.Struct != nil && pr.Struct.Obj() == mt.Obj() {
+				good++
+			}
+		})
+	}
+	return stores > 0 && stores == good
 }
